@@ -673,4 +673,45 @@ func init() {
 		rule: "0-4 in-flight RPCs of any shape in any phase (tape-positioned), InitiateShutdown (forward) or GracefulStop (reverse, 1 or 3 tunnels) at a drawn step, 0-4 RPCs attempted afterwards whose frames interleave with the in-flight ones, optionally Stop at a later drawn step; oracle per clause of the statement (refusal with Unavailable judged by when the server processed new_stream, in-flight results equal the no-shutdown model, tunnel up until they finish, GracefulStop/Stop return points); non-trivial = at least one RPC in flight at the shutdown step and at least one processed after it"})
 }
 
+func init() {
+	register(&checkDef{prop: "C09", parts: []part{
+		{name: "raw_client", gen: genRawClient, monitors: []Monitor{monRawClient("C09")}, labels: labelsRaw, nontrivial: ntRawClient, quick: 1500, thorough: 40000},
+	},
+		rule: "raw frame scripts against the real endpoints: a valid interleaved conversation for 1-4 streams drawn from the protocol grammar, 0-3 deviations from a catalogue of 28 (client role) applied at drawn positions, a closing conforming unary stream, a schedule tape; a validator model re-derives tunnel-level vs stream-level from the frames; oracle: no panic, serving call returns and nothing is left after the peer hangs up, tunnel-level violation ends the tunnel with an error, stream-level deviations leave the tunnel up and conforming streams complete with their scripted results; non-trivial = a script with at least one deviation whose frames were processed"})
+}
+
+func addParts(prop string, ps ...part) {
+	cd := checks[prop]
+	cd.parts = append(cd.parts, ps...)
+}
+
+func init() {
+	addParts("C06", part{name: "raw_overrun", gen: genRawOverrun, monitors: []Monitor{monRawClient("C06")}, labels: labelsRaw, nontrivial: ntRawClient, quick: 500, thorough: 15000})
+	addParts("C08", part{name: "raw_ids", gen: genRawIDs, monitors: []Monitor{monRawClient("C08")}, labels: labelsRaw, nontrivial: ntRawClient, quick: 500, thorough: 15000})
+	addParts("C03", part{name: "raw_revision", gen: genRawRevision, monitors: []Monitor{monRawClient("C03")}, labels: labelsRaw, nontrivial: ntRawClient, quick: 300, thorough: 8000})
+	register(&checkDef{prop: "C16", parts: []part{
+		{name: "raw_shapes", gen: genRawShapes, monitors: []Monitor{monRawClient("C16")}, labels: labelsRaw, nontrivial: ntRawClient, quick: 800, thorough: 20000},
+	},
+		rule: "raw peers for all four call shapes: 0, 1, 2 or many messages on a non-streaming side, split across chunks, before/after half-close or close, tape-ordered against the handler's / caller's reads; plus application send sequences with one send too many; oracle: the handler of a non-streaming request never obtains a second message and the RPC is closed with InvalidArgument, a caller of a non-streaming response gets an error for 0 or >=2 messages, the extra application send is refused and puts nothing on the wire; non-trivial = the offending message reached the endpoint while the RPC was open"})
+}
+
+func init() {
+	addParts("C09", part{name: "raw_server", gen: genRawServer, monitors: []Monitor{monRawServer("C09")}, labels: labelsRaw, nontrivial: ntRawServer, quick: 1200, thorough: 30000})
+	addParts("C16", part{name: "raw_server_shapes", gen: genRawServerShapes, monitors: []Monitor{monRawServer("C16")}, labels: labelsRaw, nontrivial: ntRawServer, quick: 600, thorough: 15000})
+	addParts("C06", part{name: "raw_server_overrun", gen: genRawServerOverrun, monitors: []Monitor{monRawServer("C06")}, labels: labelsRaw, nontrivial: ntRawServer, quick: 400, thorough: 10000})
+}
+
+func ntRawServer(c *Case, tr *Trace) bool {
+	if c.Raw == nil || len(c.Raw.Dev) == 0 {
+		return false
+	}
+	n := 0
+	for _, o := range tr.Ops {
+		if o.Side == "raw" && !o.Pending() && o.Code == CodeNil {
+			n++
+		}
+	}
+	return n >= 2
+}
+
 var _ = strings.Join
